@@ -790,9 +790,33 @@ def bitset_primitives(P, R, rule):
             if '_set' not in f.name or not f.params:
                 continue
             setp = f.params[0]
+            # edges decided by constants (a folded helper's selector argument) are not taken
+            dead_edges = []
+            for b0 in f.reachable_blocks():
+                for e in f.out[b0]:
+                    r0 = e.rel() if e.cond is not None and e.label not in ('case', 'default') else None
+                    if r0 and isinstance(const_of(r0[0]), int) and isinstance(const_of(r0[2]), int):
+                        a0, c0 = const_of(r0[0]), const_of(r0[2])
+                        if not {'==': a0 == c0, '!=': a0 != c0, '<': a0 < c0, '<=': a0 <= c0, '>': a0 > c0, '>=': a0 >= c0}.get(r0[1], True):
+                            dead_edges.append(e)
+            feasible = f.reach([f.entry], cut_edges=dead_edges)
             for s in f.stores():
                 l = s.ev.get('lhs') or {}
+                if s.bid not in feasible:
+                    continue
                 if s.ev['k'] == 'store' and l.get('k') in ('idx', 'un') and root_var(l) is not None and is_var(root_var(l), setp):
+                    # a shared set/clear helper folded in with a constant selector: the other arm cannot run here
+                    dead = False
+                    for g in f.guards(s.bid):
+                        if is_var(g[0]) and isinstance(const_of(g[2]), int):
+                            sd = f.single_def(g[0]['name'])
+                            cv = const_of(sd[1]) if sd and isinstance(sd[1], dict) else None
+                            if isinstance(cv, int):
+                                c2 = const_of(g[2])
+                                if not {'==': cv == c2, '!=': cv != c2, '<': cv < c2, '<=': cv <= c2, '>': cv > c2, '>=': cv >= c2}.get(g[1], True):
+                                    dead = True
+                    if dead:
+                        continue
                     R.ob(rule, s.ev.get('op') == '|=', s, '%s adds bits to the word it touches (store operator %s)' % (f.name, s.ev.get('op')), key='bitset-adds:%s' % f.name)
     bitset_domains(P, R, rule)
 
